@@ -61,7 +61,10 @@ impl<'a> Cx<'a> {
 }
 
 fn hostile_string(r: &mut Rng) -> (String, &'static str) {
-    match r.below(14) {
+    match r.below(16) {
+        // tens of KiB, not a power of two: several of them in one metric cross every 16-bit total without any single
+        // one being truncated to (almost) nothing by a narrowing cast
+        12 | 13 => ("t".repeat(r.range(20000, 50000) as usize), "tens-of-KiB"),
         0 => (String::new(), "empty"),
         1 => ("|".into(), "delim1"),
         2 => (":|#,@\n".repeat(r.range(1, 5) as usize), "delims"),
